@@ -21,7 +21,7 @@ import (
 // to the directory handed to MergeDir.
 type item struct {
 	Path    string `json:"path"`
-	Kind    string `json:"kind"` // nacha | json | skipped | sidecar | garbage | truncated | nacha-in-json | json-in-nacha | needs-sidecar
+	Kind    string `json:"kind"` // nacha | json | skipped | sidecar | garbage | truncated | nacha-in-json | json-in-nacha | needs-sidecar | json-rejected
 	Content string `json:"content"`
 }
 
